@@ -192,6 +192,10 @@ fn replay(file: &str) -> i32 {
         }
     };
     println!("{} {}[{}]\ncase: {}", prop, name, idx, sp.describe(idx));
+    let pred = v["predecessors_needed"].as_u64().unwrap_or(0);
+    for j in idx.saturating_sub(pred)..idx {
+        let _ = sp.eval(j);
+    }
     let e = sp.eval(idx);
     let mut hit = false;
     for i in &e.issues {
